@@ -137,6 +137,8 @@ class Engine(StmtMixin, EvalMixin, Interp):
                     return acc
                 if len(args) == 1:
                     seq = interp.resolve(args[0])
+                    if is_int(seq) or isinstance(seq, bool):
+                        raise PyExc("TypeError", "'int' object is not iterable")
                     s, c = interp._as_sequence(seq)
                     if isinstance(s, (SList, LazySeq)) and not isinstance(s.length, int):
                         h = interp.externals.get("builtins." + which + ".symbolic")
